@@ -26,8 +26,10 @@ from props import c19_cp2k as CP
 
 PART = "wfrvel"
 SIG = "C19:cp2k:wfrvel:"
-# behaviour of the UNCHANGED /repo that a predicate rejects and that is reported but not (yet) a recorded finding
-PENDING_FINDINGS = {SIG + "keyword-case"}
+# behaviour of the UNCHANGED /repo that a predicate rejects and that is reported but not (yet) a recorded finding.
+# (SIG + "keyword-case" was pending until 2026-09-30; it is an OPEN entry of known_findings.json now and reported through
+# ctx.fail -> KNOWN-FINDING; the model has the asIs | repaired variants, see c19_variant.py)
+PENDING_FINDINGS: set = set()
 
 TARGETS = ["GLOBAL", "MOTION->MD", "MOTION->PRINT->RESTART", "MOTION->PRINT->RESTART->EACH",
            "MOTION->PRINT->VELOCITIES->EACH", "MOTION->PRINT->TRAJECTORY->EACH", "FORCE_EVAL->SUBSYS->TOPOLOGY",
@@ -280,9 +282,9 @@ def run_part(ctx):
                 ctx.sample({"part": PART, "template": text, "params": enc_params(P), "code": r.answer()})
         if ctx._driver_ok and lines:
             out = ctx.driver(lines)
-            for (case, code), model in zip(pending, out):
-                if code != model and not ("reread-err:" in str(code) and "reread-err:" in str(model)):
-                    ctx.disagree({"part": PART, **case}, code, model)
+            from props import c19_variant as V
+            V.settle(ctx, PART, [(case, code, line, model) for (case, code), line, model in zip(pending, lines, out)],
+                     same=lambda c, m: c == m or ("reread-err:" in str(c) and "reread-err:" in str(m)))
             ctx.hit("wfrvel-model-comparisons", len(lines))
         for sig in sorted(fails):
             what, rep, n = fails[sig]
